@@ -9,5 +9,6 @@ import KavaVerif.Props.C02
 #print axioms KV.Safe.C02_cdp_debt_split_counterexample
 #print axioms KV.Safe.C02_cdp_debt_split_witness
 #print axioms KV.Safe.C02_cdp_debt_split_single_partial
-#print axioms KV.Safe.C02_kavadist_zero_mint_counterexample
-#print axioms KV.Safe.C02_kavadist_nonzero_mint_partial
+#print axioms KV.Safe.C02_kavadist_mint_step_never_panics
+#print axioms KV.Safe.C02_kavadist_partner_rewards_counterexample
+#print axioms KV.Safe.C02_kavadist_partner_rewards_partial
